@@ -199,8 +199,11 @@ var specs = []*PropSpec{
 			m.BulkInsert, m.BulkDelete = 0, 0
 		}),
 		KindOf: func(t *rapid.T) Kind {
-			if drawInt(t, 0, 2, "c13fam") < 2 {
+			switch drawInt(t, 0, 6, "c13fam") {
+			case 0, 1, 2, 3:
 				return MustKind("alpha:bytes")
+			case 4:
+				return MustKind("cmpraw:bytes") // compound tree, []byte keys, the library's pass-through codec
 			}
 			return MustKind("coll:" + pick(t, []string{"und", "de", "ic"}, "ccfg") + ":bytes")
 		},
